@@ -468,3 +468,8 @@ def run(repo: Repo, rep: Report, tier: str) -> None:
     from .c13 import parser_fold_rule
 
     parser_fold_rule(repo, rep, "C17.R19")
+    from .c18 import accessor_fold_rule, late_binding_rule
+
+    # local assignment: a member of an anonymous structure assigned on the parent lands in that member
+    accessor_fold_rule(repo, rep, "C17.R20")
+    late_binding_rule(repo, rep, "C17.R21")
